@@ -136,6 +136,13 @@ def build(case):
         for name in d["flags"]:
             flags |= FLAGBITS[name]
         fds[fd] = simk.FD(tgt, d["pos"], flags, d["kind"])
+        # what the kernel appends to fdinfo for locked files, epoll / inotify /
+        # eventfd descriptors (fs/locks.c, fs/eventpoll.c, fs/notify/fdinfo.c)
+        fds[fd].extra = [b"", b"", b"lock:\t1: FLOCK  ADVISORY  WRITE 4242 fd:01:5678 0 EOF\n",
+                         b"lock:\t1: POSIX  ADVISORY  READ 4242 08:02:1 0 EOF\nlock:\t2: LEASE  ACTIVE    READ 1 08:02:1 0 EOF\n",
+                         b"tfd:        5 events:       19 data:                5  pos:0 ino:61af sdev:7\n",
+                         b"inotify wd:1 ino:1 sdev:800013 mask:800afce ignored_mask:0 fhandle-bytes:8 fhandle-type:1 f_handle:0\n",
+                         b"eventfd-count:                0\neventfd-id: 3\n"][(fd * 7 + d["pos"]) % 7]
         if d["kind"] in ("reg", "reg-space", "reg-deleted-kept", "reg-nul", "reg-devshm"):
             k.set_file(listed_path, b"data")
         elif d["kind"] == "reg-deleted-literal":
